@@ -45,12 +45,15 @@ Lemma compress_room2 R c n input E out_len f :
   exists r, compress c input out_len f = Ret (CRet r) /\
             (r_status r = TOkay -> N.of_nat (length (r_out r)) < out_len ->
              c_pending (r_comp r) = [] /\
-             (c_pending c <> [] \/ (r_in r = N.of_nat (length input) /\ f <> TF_FINISH))).
+             (c_pending c <> [] \/ (r_in r = N.of_nat (length input) /\ f <> TF_FINISH))) /\
+            ((c_flush c = TF_FINISH -> f = TF_FINISH) -> r_status r = TOkay \/ r_status r = TDone).
 Proof.
   intros Hsmall Hlf HGI HDz Hpre. pose proof HGI as [Hprev HG].
   unfold compress, compress_inner. rewrite Hprev. cbn [negb orb].
-  destruct (negb (negb (c_flush c =? TF_FINISH) || (f =? TF_FINISH))).
-  { eexists. split; [reflexivity|]. cbn [r_status]. discriminate. }
+  destruct (negb (negb (c_flush c =? TF_FINISH) || (f =? TF_FINISH))) eqn:Ebad.
+  { eexists. split; [reflexivity|]. cbn [r_status]. split; [discriminate|].
+    intros Hff. exfalso. apply negb_true_iff, orb_false_iff in Ebad. destruct Ebad as [B1 B2].
+    apply negb_false_iff, N.eqb_eq in B1. apply N.eqb_neq in B2. exact (B2 (Hff B1)). }
   set (c0 := set_flush c f).
   set (cb0 := CBuf out_len [] 0).
   assert (Hcb0 : cb_ok out_len cb0) by (unfold cb0; cbn; repeat split; lia).
@@ -60,9 +63,12 @@ Proof.
                       = Ret (CRet r) /\
                       (r_status r = TOkay -> N.of_nat (length (r_out r)) < out_len ->
                        c_pending (r_comp r) = [] /\
-                       (c_pending c <> [] \/ (r_in r = N.of_nat (length input) /\ f <> TF_FINISH)))).
+                       (c_pending c <> [] \/ (r_in r = N.of_nat (length input) /\ f <> TF_FINISH))) /\
+                      (r_status r = TOkay \/ r_status r = TDone)).
   { intros st c' cb' Hf Hcase. eexists. split; [reflexivity|]. cbn [r_status r_out r_comp r_in].
     pose proof (fob_PF out_len _ _ _ _ _ Hcb0 Hf) as ([Hok' Hfull] & _ & _).
+    split.
+    2:{ apply fob_vout in Hf. destruct Hf as (_ & _ & _ & Est'). rewrite Est'. match goal with |- context [if ?b then TDone else TOkay] => destruct b end; auto. }
     intros Est Hroom. rewrite (written_ofs out_len cb' Hok') in Hroom.
     assert (Hp' : c_pending c' = []).
     { destruct (c_pending c') as [|x l]; [reflexivity|]. rewrite Hfull in Hroom by discriminate. lia. }
@@ -74,14 +80,14 @@ Proof.
   change (c_flags c0) with (c_flags c).
   destruct HG as [(A & HBI & HAv & Hn & Had)|[Hfin Hfw]].
   2:{ rewrite Hfin, orb_true_r.
-      destruct (flush_output_buffer c0 cb0) as [[st c'] cb'] eqn:Ef. apply Hdrain; [reflexivity|left; exact Hfin]. }
+      destruct (flush_output_buffer c0 cb0) as [[st c'] cb'] eqn:Ef. specialize (Hdrain st c' cb'). match type of Hdrain with ?A -> _ => assert (HAx : A) by first [exact Ef | reflexivity] end. destruct (Hdrain HAx (or_introl Hfin)) as (r & Er & H1 & H2). exists r. split; [exact Er|]. split; [exact H1|intros _; exact H2]. }
   pose proof (adler_lt wb Hwb A HAv) as HA.
   pose proof HBI as (Hfix & Hle & Hlp & Htb & Hls & Hd & Hcbuf & Hem).
   destruct Hfix as (F1 & F2 & F3 & F4 & F5 & F6).
   rewrite F5, orb_false_r.
   destruct (Hpre F5) as (HnE & HEt & Hin). clear Hpre.
   destruct (c_pending c) as [|p ps] eqn:Hpe; cbn [negb].
-  2:{ destruct (flush_output_buffer c0 cb0) as [[st c'] cb'] eqn:Ef. apply Hdrain; [reflexivity|right; discriminate]. }
+  2:{ destruct (flush_output_buffer c0 cb0) as [[st c'] cb'] eqn:Ef. specialize (Hdrain st c' cb'). match type of Hdrain with ?A -> _ => assert (HAx : A) by first [exact Ef | reflexivity] end. assert (Hne : p :: ps <> []) by discriminate. destruct (Hdrain HAx (or_intror Hne)) as (r & Er & H1 & H2). exists r. split; [exact Er|]. split; [exact H1|intros _; exact H2]. }
   clear Hdrain.
   rewrite F1, Hraw. cbn [negb].
   assert (HBI0 : BI2' R A c0 cb0).
@@ -148,6 +154,9 @@ Proof.
     destruct (flush_output_buffer c4 cb3) as [[st c5] cb5] eqn:Ef5.
     pose proof (fob_PF out_len _ _ _ _ _ Hok3 Ef5) as ([Hok5 Hfull5] & _ & _).
     eexists. split; [reflexivity|]. cbn [r_status r_out r_comp r_in].
+    split.
+    2:{ intros _. destruct cb3 as [len3 w3 ofs3|]; [|cbn in Hok3; contradiction].
+        apply fob_vout in Ef5. destruct Ef5 as (_ & _ & _ & Est5). rewrite Est5. match goal with |- context [if ?b then TDone else TOkay] => destruct b end; auto. }
     intros Est Hroom. rewrite (written_ofs out_len cb5 Hok5) in Hroom.
     assert (Hp5 : c_pending c5 = []).
     { destruct (c_pending c5) as [|x l]; [reflexivity|]. rewrite Hfull5 in Hroom by discriminate. lia. }
@@ -160,6 +169,9 @@ Proof.
     destruct (flush_output_buffer c2 cb1) as [[st c3] cb3] eqn:Ef3.
     pose proof (fob_PF out_len _ _ _ _ _ Hok1 Ef3) as ([Hok3 Hfull3] & Hmono3 & _).
     eexists. split; [reflexivity|]. cbn [r_status r_out r_comp r_in].
+    split.
+    2:{ intros _. destruct cb1 as [len1 w1 ofs1|]; [|cbn in Hok1; contradiction].
+        apply fob_vout in Ef3. destruct Ef3 as (_ & _ & _ & Est3). rewrite Est3. match goal with |- context [if ?b then TDone else TOkay] => destruct b end; auto. }
     intros Est Hroom. rewrite (written_ofs out_len cb3 Hok3) in Hroom.
     assert (Hp3 : c_pending c3 = []).
     { destruct (c_pending c3) as [|x l]; [reflexivity|]. rewrite Hfull3 in Hroom by discriminate. lia. }
@@ -187,7 +199,7 @@ Lemma deflate_turn_step R n E f s s' :
 Proof.
   intros Hf [HG Hin] HDz Hsmall. unfold deflate_turn.
   destruct (legal_mz_td f Hf) as [Hlf Htd]. rewrite Htd in *.
-  destruct (compress_room2 _ _ _ (ds_in s) E (ds_room s) f Hsmall Hlf HG HDz Hin) as (r & Er & Hroom).
+  destruct (compress_room2 _ _ _ (ds_in s) E (ds_room s) f Hsmall Hlf HG HDz Hin) as (r & Er & Hroom & _).
   rewrite Er. cbv zeta.
   destruct (r_status r) eqn:Est; try discriminate.
   destruct (ds_room s - N.of_nat (length (r_out r)) =? 0) eqn:Eroom; [discriminate|].
@@ -212,7 +224,7 @@ Lemma deflate_turn_ret R n E f s :
 Proof.
   intros Hf [HG Hin] HDz Hsmall. unfold deflate_turn.
   destruct (legal_mz_td f Hf) as [Hlf Htd]. rewrite Htd in *.
-  destruct (compress_room2 _ _ _ (ds_in s) E (ds_room s) f Hsmall Hlf HG HDz Hin) as (r & Er & _).
+  destruct (compress_room2 _ _ _ (ds_in s) E (ds_room s) f Hsmall Hlf HG HDz Hin) as (r & Er & _ & _).
   rewrite Er. cbv zeta.
   destruct (r_status r); try exact I.
   destruct (_ =? 0); [exact I|].
@@ -292,9 +304,131 @@ Proof.
   rewrite (Hrest Hcf), skipn_skipn_add. f_equal. lia.
 Qed.
 
+(* ---- with Finish the call keeps working until the stream ends or the output buffer is completely full *)
+Definition DRfin (out_len : N) (r : res dres) : Prop :=
+  match r with
+  | Ret (DRet code ncons out c') =>
+      code = D_MZ_STREAM_END \/ (code = D_MZ_OK /\ N.of_nat (length out) = out_len)
+  | _ => True
+  end.
+
+Lemma deflate_turn_finish R n E s out_len :
+  DLI data flags wb R n E s -> Dz (ds_c s) -> N.of_nat (length (ds_in s)) + 259 < 2 ^ 40 ->
+  ds_room s + N.of_nat (length (ds_rout s)) = out_len ->
+  match deflate_turn 4 s with
+  | inl s' => ds_room s' + N.of_nat (length (ds_rout s')) = out_len
+  | inr r => DRfin out_len r
+  end.
+Proof.
+  intros [HG Hin] HDz Hsmall HJ. unfold deflate_turn.
+  change (tdflush_of_mz 4) with 4.
+  assert (Hlf : legal_flush 4) by (unfold legal_flush; cbn; tauto).
+  destruct (compress_room2 _ _ _ (ds_in s) E (ds_room s) 4 Hsmall Hlf HG HDz Hin) as (r & Er & _ & Hst).
+  pose proof (compress_counts _ _ _ _ _ Er) as [_ Hrout].
+  rewrite Er. cbv zeta.
+  specialize (Hst (fun _ => eq_refl)).
+  destruct Hst as [Hst|Hst]; rewrite Hst.
+  - destruct (ds_room s - N.of_nat (length (r_out r)) =? 0) eqn:Eroom.
+    + apply N.eqb_eq in Eroom. unfold DRfin. right. split; [reflexivity|].
+      rewrite !rev_append_rev, app_nil_r, rev_length, app_length, rev_length. lia.
+    + change (4 =? 4) with true. cbn [negb]. rewrite andb_false_r.
+      cbn [ds_room ds_rout]. rewrite rev_append_rev, app_length, rev_length. lia.
+  - unfold DRfin. left. reflexivity.
+Qed.
+
+Lemma deflate_finish_works R c n E input out_len code ncons out c' :
+  DGI' R c n -> Dz c ->
+  (c_finished c = false -> n <= E /\ E <= total data /\ input = slice data n E) ->
+  N.of_nat (length input) + 259 < 2 ^ 40 -> 0 < out_len ->
+  deflate c input out_len 4 = Ret (DRet code ncons out c') ->
+  code = D_MZ_STREAM_END \/ (code = D_MZ_OK /\ N.of_nat (length out) = out_len).
+Proof.
+  intros HD HDz Hin Hsmall Hol. unfold deflate.
+  assert (Hf : legal_mz_flush 4) by (unfold legal_mz_flush; tauto).
+  replace (out_len =? 0) with false by (symmetry; apply N.eqb_neq; lia).
+  destruct (c_prev c) eqn:Ep.
+  4:{ change (4 =? 4) with true. cbv iota. intros H; inversion H; subst. left. reflexivity. }
+  all: destruct HD as [HG|[Hp _]]; [|congruence].
+  all: try (destruct HG as [Hp _]; congruence).
+  cbv iota.
+  set (s0 := {| ds_c := c; ds_in := input; ds_room := out_len; ds_tin := 0; ds_rout := [] |}).
+  set (I := fun s => DLI data flags wb R n E s /\ Dz (ds_c s) /\ N.of_nat (length (ds_in s)) + 259 < 2 ^ 40 /\
+                     ds_room s + N.of_nat (length (ds_rout s)) = out_len).
+  assert (H0 : I s0).
+  { split; [|split; [exact HDz|split; [exact Hsmall|unfold s0; cbn [ds_room ds_rout length]; lia]]].
+    unfold DLI, s0. cbn [ds_c ds_in ds_tin ds_rout rev]. rewrite app_nil_r, N.add_0_r. split; [exact HG|exact Hin]. }
+  pose proof (iter_pow_inv (deflate_turn 4) I (DRfin out_len)) as H.
+  assert (H1 : forall s s', I s -> deflate_turn 4 s = inl s' -> I s').
+  { intros s s' (Hs & Hz & Hsm & HJ) Et.
+    destruct (deflate_turn_step R n E 4 s s' Hf Hs Hz Hsm Et) as [_ Hsm'].
+    split; [|split; [|split; [exact Hsm'|]]].
+    - pose proof (deflate_turn_DLI data flags wb Hraw Hwb R n E 4 Hf s Hs) as X. rewrite Et in X. exact X.
+    - pose proof (deflate_turn_np data flags wb Hraw Hwb R n E 4 s Hf Hs Hz) as X. rewrite Et in X. exact X.
+    - pose proof (deflate_turn_finish R n E s out_len Hs Hz Hsm HJ) as X. rewrite Et in X. exact X. }
+  assert (H2 : forall s r, I s -> deflate_turn 4 s = inr r -> DRfin out_len r).
+  { intros s r (Hs & Hz & Hsm & HJ) Et.
+    pose proof (deflate_turn_finish R n E s out_len Hs Hz Hsm HJ) as X. rewrite Et in X. exact X. }
+  specialize (H H1 H2 40%nat s0 H0).
+  destruct (iter_pow 40 (deflate_turn 4) s0) as [s'|rr]; [discriminate|].
+  intros ->. exact H.
+Qed.
+
+(* the state a schedule of deflate() calls leads to, when no call of it ended the stream or failed *)
+Fixpoint dreach (c : comp) (rest : list N) (sched : list (N * N * N)) (acc : list N) (consumed : N)
+  : option (comp * list N * list N * N) :=
+  match sched with
+  | [] => Some (c, rest, acc, consumed)
+  | (m, out_len, f) :: sched' =>
+      match deflate c (firstn (N.to_nat m) rest) out_len f with
+      | Ret (DRet code ncons out c') =>
+          if (code =? D_MZ_OK)%Z || (code =? D_MZ_ERR_BUF)%Z
+          then dreach c' (skipn (N.to_nat ncons) rest) sched' (acc ++ out) (consumed + ncons)
+          else None
+      | _ => None
+      end
+  end.
+
+Definition RS (c : comp) (rest acc : list N) (n : N) : Prop :=
+  DGI' acc c n /\ Dz c /\ (c_finished c = false -> rest = skipn (N.to_nat n) data) /\ (exists k, rest = skipn k data).
+
+Lemma dreach_RS : forall sched c rest acc n c1 rest1 acc1 n1,
+  Forall (fun it => legal_mz_flush (snd it)) sched ->
+  RS c rest acc n -> dreach c rest sched acc n = Some (c1, rest1, acc1, n1) -> RS c1 rest1 acc1 n1.
+Proof.
+  induction sched as [|[[m out_len] f] sched IH]; intros c rest acc n c1 rest1 acc1 n1 Hleg HRS; cbn [dreach].
+  { intros H; inversion H; subst. exact HRS. }
+  destruct HRS as (HD & HDz & Hrest & Hsuf).
+  inversion Hleg as [|it its Hf Hl']; subst. cbn [snd] in Hf.
+  assert (Hn : c_finished c = false -> n <= total data).
+  { intros Hnf. destruct HD as [[_ [(A & HBI & _ & Hn & _)|[Hfin _]]]|[_ (Hn & _)]]; [|congruence|exact Hn].
+    destruct HBI as (_ & Hle & _). lia. }
+  assert (Hpre : c_finished c = false ->
+                 n <= N.min (n + m) (total data) /\ N.min (n + m) (total data) <= total data /\
+                 firstn (N.to_nat m) rest = slice data n (N.min (n + m) (total data))).
+  { intros Hnf. specialize (Hn Hnf). split; [lia|]. split; [lia|].
+    rewrite (Hrest Hnf). unfold slice. rewrite firstn_min, skipn_length. f_equal. unfold total in *. lia. }
+  pose proof (deflate_np data flags wb Hraw Hwb acc c n _ _ out_len f Hf HD HDz Hpre) as Hnp.
+  destruct (deflate c (firstn (N.to_nat m) rest) out_len f) as [d| |] eqn:Ed; try discriminate.
+  destruct d as [code ncons o c'|]; [|discriminate].
+  pose proof (deflate_DGI data flags wb Hraw Hwb acc c n _ _ out_len f _ Hf HD Hpre Ed) as Hp.
+  unfold dpost in Hp. unfold DRnp in Hnp.
+  destruct ((code =? D_MZ_OK)%Z || (code =? D_MZ_ERR_BUF)%Z) eqn:Eok; [|discriminate].
+  assert (Hne : (code =? D_MZ_STREAM_END)%Z = false).
+  { apply orb_true_iff in Eok. destruct Eok as [X|X]; apply Z.eqb_eq in X; subst code; reflexivity. }
+  rewrite Hne in Hp.
+  apply IH; [exact Hl'|].
+  split; [exact Hp|]. split; [exact Hnp|]. split.
+  - intros Hnf'.
+    assert (Hcf : c_finished c = false).
+    { destruct (c_finished c) eqn:Hfin; [|reflexivity].
+      rewrite (deflate_keeps_finished _ _ _ _ _ _ _ _ Hfin Ed) in Hnf'. discriminate. }
+    rewrite (Hrest Hcf), skipn_skipn_add. f_equal. lia.
+  - destruct Hsuf as [k ->]. exists (k + N.to_nat ncons)%nat. apply skipn_skipn_add.
+Qed.
+
 End D.
 
-(* ------------------------------------------------------------------ the statement *)
+(* ------------------------------------------------------------------ the statements *)
 Theorem level0_every_deflate_schedule_returns (data : list N) (flags wb : N) sched :
   hasf flags FLAG_RAW = true -> wb <= 15 ->
   Forall (fun it => legal_mz_flush (snd it)) sched ->
@@ -307,4 +441,33 @@ Proof.
   - unfold Dz, comp_new. cbn. lia.
   - intros _. reflexivity.
   - exists 0%nat. reflexivity.
+Qed.
+
+(* after ANY schedule of deflate() calls that has not ended the stream, a Finish call with a non-empty output buffer
+   returns stream end, or Okay with the output buffer completely full - whatever it is offered *)
+Theorem level0_finish_works_until_end_or_full (data : list N) (flags wb : N) sched c rest acc n m out_len code ncons out c' :
+  hasf flags FLAG_RAW = true -> wb <= 15 ->
+  Forall (fun it => legal_mz_flush (snd it)) sched ->
+  N.of_nat (length data) + 259 < 2 ^ 40 ->
+  dreach (comp_new flags wb) data sched [] 0 = Some (c, rest, acc, n) ->
+  0 < out_len ->
+  deflate c (firstn (N.to_nat m) rest) out_len 4 = Ret (DRet code ncons out c') ->
+  code = D_MZ_STREAM_END \/ (code = D_MZ_OK /\ N.of_nat (length out) = out_len).
+Proof.
+  intros Hraw Hwb Hleg Hsmall Hreach Hol Hd.
+  assert (H0 : RS data flags wb (comp_new flags wb) data [] 0).
+  { split; [left; apply (GI2_init data flags wb)|]. split; [unfold Dz, comp_new; cbn; lia|].
+    split; [intros _; reflexivity|exists 0%nat; reflexivity]. }
+  destruct (dreach_RS data flags wb Hraw Hwb sched _ _ _ _ _ _ _ _ Hleg H0 Hreach) as (HD & HDz & Hrest & Hsuf).
+  assert (Hn : c_finished c = false -> n <= total data).
+  { intros Hnf. destruct HD as [[_ [(A & HBI & _ & Hn & _)|[Hfin _]]]|[_ (Hn & _)]]; [|congruence|exact Hn].
+    destruct HBI as (_ & Hle & _). lia. }
+  assert (Hpre : c_finished c = false ->
+                 n <= N.min (n + m) (total data) /\ N.min (n + m) (total data) <= total data /\
+                 firstn (N.to_nat m) rest = slice data n (N.min (n + m) (total data))).
+  { intros Hnf. specialize (Hn Hnf). split; [lia|]. split; [lia|].
+    rewrite (Hrest Hnf). unfold slice. rewrite firstn_min, skipn_length. f_equal. unfold total in *. lia. }
+  assert (Hlen : N.of_nat (length (firstn (N.to_nat m) rest)) + 259 < 2 ^ 40).
+  { destruct Hsuf as [k ->]. rewrite firstn_length, skipn_length. lia. }
+  exact (deflate_finish_works data flags wb Hraw Hwb acc c n _ _ out_len code ncons out c' HD HDz Hpre Hlen Hol Hd).
 Qed.
